@@ -1,4 +1,4 @@
-(** C15 — the memoisation sites found in the brush sources (gen/CacheKeys.v) are transparent.
+(** C15 — the memoisation sites found in the brush sources (gen/C15CacheKeys.v) are transparent.
 
     A call of a memoised function is an assignment of values to its parameter names
     ([env : string -> Val]); the function's result depends on the values of its parameters
@@ -8,7 +8,7 @@
     [keys_cover_inputs] decides this for every site; [covered_site_transparent] turns it into
     the hypothesis of [memo_transparent]. *)
 From Coq Require Import String Ascii.
-From BV Require Import Base.Prelude Cache.Lru gen.CacheKeys.
+From BV Require Import Base.Prelude Cache.Lru gen.C15CacheKeys.
 
 Definition str_mem (x : string) (l : list string) : bool := existsb (String.eqb x) l.
 
